@@ -43,6 +43,12 @@ pub fn run(ctx: &Ctx) -> i32 {
     o.extra.insert("enumerated_cut_plans".into(), serde_json::json!(n_listed));
     total.merge(o);
     total.merge(run_generated(ctx, &SniffEngine, "grammar", strategy, ctx.cases(150_000, 4_000_000), 400));
+    if ctx.tier == Tier::Thorough && std::env::var_os("VERIF_NO_FUZZ").is_none() {
+        let mut seed1 = vec![3u8, 4, 9, 1, 0, 0, 0, 0, 0, 2, 1, 0, 20];
+        seed1.extend_from_slice(b"GET / HTTP/1.1\r\nhost: a\r\n\r\n");
+        let seeds = vec![seed1, vec![1u8, 10, 0, 0, 0, 0, 0, 0, 12, 32, 47, 32, 72, 84, 84, 80], (0..120u32).map(|i| (i * 29 % 253) as u8).collect()];
+        total.merge(run_fuzz_leg(ctx, "fz_sniff", "sniff", None, ctx.cases(0, 2_500), 200, seeds));
+    }
     finish(
         ctx,
         started,
